@@ -52,9 +52,16 @@ def o1(h, st):
         unew = h.real("unew")
         tot = h.call(IH, "MethodOfIncrementsHelper.mi_summation", helper, {str(full): unew})
         h.check_close("full-order summation == user energy of the complete fragment + its stored correction", tot, unew + Cc[full], tol=1e-9)
+        # history on the same helper object: a user energy supplied once must not stick - the next plain summation uses the stored energies again, and vice versa
+        tot2 = h.call(IH, "MethodOfIncrementsHelper.mi_summation", helper)
+        h.check_close("a later summation WITHOUT user energies on the same helper == stored energy of the complete fragment", tot2, E[full], tol=1e-9)
+        tot3 = h.call(IH, "MethodOfIncrementsHelper.mi_summation", helper, {str(full): unew})
+        h.check_close("... and with the user energy again == user energy + stored correction", tot3, unew + Cc[full], tol=1e-9)
     else:
         tot = h.call(IH, "MethodOfIncrementsHelper.mi_summation", helper)
         h.check_close("full-order summation == energy of the complete fragment", tot, E[full], tol=1e-9)
+        tot2 = h.call(IH, "MethodOfIncrementsHelper.mi_summation", helper)
+        h.check_close("a second summation on the same helper object gives the same energy", tot2, E[full], tol=1e-9)
     h.done()
 
 
@@ -176,14 +183,17 @@ def o4(h, st):
     if h.symbolic:
         h.I.stubs[(HC, "Fragment.get_energy")] = lambda interp, args, kw: E[args[0]]
         tot = h.call(ON, "ONIOMProblemDecomposition.simulate", oniom)
+        tot2 = h.call(ON, "ONIOMProblemDecomposition.simulate", oniom)
     else:
         orig = Fragment.get_energy
         Fragment.get_energy = staticmethod(lambda mol, solver: E[mol])
         try:
             tot = h.call(ON, "ONIOMProblemDecomposition.simulate", oniom)
+            tot2 = h.call(ON, "ONIOMProblemDecomposition.simulate", oniom)
         finally:
             Fragment.get_energy = orig
     h.check_close("ONIOM energy == E_low(system) + sum (E_high - E_low)(models)", tot, exp, tol=1e-12)
+    h.check_close("a second simulate() on the same object gives the same energy (nothing accumulates across calls)", tot2, exp, tol=1e-12)
     h.done()
 
 
